@@ -40,7 +40,7 @@ UNITS = {
 }
 ASSUMED = [
     # (unit regex, src fn regex, object regex, kind regex, name)
-    (r"^src_list$", r"^output_timestamp$", r"^local months$", r"^load$", "A-libc-tm"),
+    (r"^src_list$", r".", r"^local months$", r"^load$", "A-libc-tm"),
     (r"^decoder$", r"^(lha_decoder_read|lha_crc16_buf)$", r"^param 1$", r".", "A-decoder-clamp"),
     (r"^header$", r".", r"^heap$", r".", "A-rawdata"),
 ]
